@@ -39,12 +39,31 @@ import (
 	"verifh/vh"
 )
 
-const nSeries, nFields = 2, 2 // model key = series*nFields + field; field 0 integer, field 1 float
-const nowRank = 1000          // mtime rank of a file created by the action's own snapshot
+const nSeries, nFields = 2, 2  // model key = series*nFields + field; field 0 integer, field 1 float
+const nowRank = int64(1) << 60 // mtime rank of a file created by the action's own snapshot (its real mtime is the wall clock, years after baseTime)
+
+// mtime ranks are NANOSECONDS after baseTime: the since filter compares time.Time values,
+// so the boundary cases live at sub-second distances from `since`.
+const (
+	rankMs  = int64(time.Millisecond)
+	rankSec = int64(time.Second)
+)
 
 var baseTime = time.Date(2001, 1, 1, 0, 0, 0, 0, time.UTC)
 
-func rankTime(r int64) time.Time { return baseTime.Add(time.Duration(r) * time.Second) }
+func rankTime(r int64) time.Time { return baseTime.Add(time.Duration(r)) }
+
+// setMtime sets and verifies a file's mtime (the file system must keep nanoseconds).
+func setMtime(p string, r int64) {
+	if err := os.Chtimes(p, rankTime(r), rankTime(r)); err != nil {
+		panic(err)
+	}
+	st, err := os.Stat(p)
+	if err != nil || !st.ModTime().Equal(rankTime(r)) {
+		fmt.Fprintln(os.Stderr, "file system does not keep the nanosecond mtime set with os.Chtimes:", p, err)
+		os.Exit(3)
+	}
+}
 
 type jpoint struct {
 	Series int   `json:"s"`
@@ -504,14 +523,10 @@ func runCase(w *vh.W, c *jcase) {
 		if i < len(c.TombMts) {
 			tr = c.TombMts[i]
 		}
-		if err := os.Chtimes(p, rankTime(r), rankTime(r)); err != nil {
-			panic(err)
-		}
+		setMtime(p, r)
 		rank[p] = r
 		if _, err := os.Stat(tombPath(p)); err == nil {
-			if err := os.Chtimes(tombPath(p), rankTime(tr), rankTime(tr)); err != nil {
-				panic(err)
-			}
+			setMtime(tombPath(p), tr)
 			trank[p] = tr
 		}
 	}
@@ -992,9 +1007,31 @@ func gen(w *vh.W) jcase {
 			nfiles = 1
 		}
 	}
+	// `since` and the mtimes around it: the same instant, 1ns before/after, earlier/later in
+	// the same wall-clock second, the first/last nanosecond of that second, the previous and
+	// the next second, far away.  Since == 0: full backup (every mtime is positive).
+	S := int64(10+r.IntN(3)) * rankSec
+	since := S + 100*rankMs
+	switch r.IntN(6) {
+	case 0:
+		since = S // exactly on a second boundary
+	case 1:
+		since = S + 999*rankMs
+	}
+	if r.IntN(2) == 0 {
+		since = 0
+	}
+	near := func() int64 {
+		if since == 0 {
+			return 1 + int64(r.IntN(5))*300*rankMs
+		}
+		offs := []int64{0, 1, -1, 500 * rankMs, -50 * rankMs, S - since, S - since - 1, rankSec, S + rankSec - since,
+			S + rankSec - 1 - since, 5 * rankSec, -5 * rankSec, 40 * rankMs, 2}
+		return since + offs[r.IntN(len(offs))]
+	}
 	for i := 0; i < 12; i++ {
-		c.Mts = append(c.Mts, int64(1+r.IntN(5)))
-		c.TombMts = append(c.TombMts, int64(1+r.IntN(5)))
+		c.Mts = append(c.Mts, near())
+		c.TombMts = append(c.TombMts, near())
 	}
 	c.OwnIndex = r.IntN(3) == 0
 	c.ViaShard = r.IntN(3) == 0
@@ -1006,10 +1043,7 @@ func gen(w *vh.W) jcase {
 	}
 	if r.IntN(2) == 0 {
 		c.Action = "backup"
-		c.Since = int64(r.IntN(7))
-		if r.IntN(2) == 0 {
-			c.Since = 0 // full backup
-		}
+		c.Since = since
 	} else {
 		c.Action = "export"
 		c.Lo, c.Hi = int64(r.IntN(tdom+2))-1, int64(r.IntN(tdom+2))-1
@@ -1036,11 +1070,18 @@ func corpus() []jcase {
 		return st
 	}
 	snap := jstep{Op: "snap"}
-	mts := []int64{2, 4, 3, 1, 5, 2, 2, 2, 2, 2, 2, 2}
+	mts := []int64{2, 4, 3, 1, 5, 2, 2, 2, 2, 2, 2, 2} // nanoseconds: all within one wall-clock second
 	base := func(steps ...jstep) jcase { return jcase{Steps: steps, Mts: mts, TombMts: mts, OwnIndex: true} }
 	bk := func(since int64, steps ...jstep) jcase {
 		c := base(steps...)
 		c.Action, c.Since = "backup", since
+		return c
+	}
+	// sameSecond: file i gets mtime ms[i]; a tombstone file gets the LAST entry of ms
+	sameSecond := func(since int64, ms []int64, steps ...jstep) jcase {
+		c := bk(since, steps...)
+		c.Mts = append(append([]int64{}, ms...), ms[len(ms)-1], ms[len(ms)-1])
+		c.TombMts = []int64{ms[len(ms)-1], ms[len(ms)-1], ms[len(ms)-1]}
 		return c
 	}
 	ex := func(lo, hi int64, steps ...jstep) jcase {
@@ -1064,6 +1105,14 @@ func corpus() []jcase {
 		snapOff(viaShard(bk(0, wr(jpoint{1, 1, 4, 44})))),
 		snapOff(bk(0, wr(jpoint{0, 0, 5, 10}), snap)), // empty cache: nothing to snapshot, no error
 		snapOff(ex(0, 9, two...)),
+		// incremental, since = S+100ms: file 0 changed 500ms later in the SAME second, file 1 in
+		// the next second; then file 0 exactly at since / 1ns after / in the previous second
+		sameSecond(10*rankSec+100*rankMs, []int64{10*rankSec + 600*rankMs, 11*rankSec + 1}, two...),
+		sameSecond(10*rankSec+100*rankMs, []int64{10*rankSec + 100*rankMs, 10*rankSec + 100*rankMs + 1}, two...),
+		sameSecond(10*rankSec+100*rankMs, []int64{10*rankSec - 1, 10 * rankSec}, two...),
+		sameSecond(10*rankSec, []int64{10*rankSec + 999*rankMs, 10 * rankSec}, two...),
+		// a tombstone written later in the same second as since
+		sameSecond(10*rankSec+100*rankMs, []int64{9 * rankSec, 10*rankSec + 600*rankMs}, wr(jpoint{0, 0, 5, 7}, jpoint{1, 0, 5, 8}), snap, jstep{Op: "delete", Series: []int{0}, Lo: 0, Hi: 9}),
 		bk(2, two...), // incremental: since == mtime of file 0 (strict >)
 		bk(3, two...), // incremental
 		bk(4, two...), // since == newest explicit mtime: only the fresh snapshot file
@@ -1093,7 +1142,7 @@ func corpus() []jcase {
 
 func main() {
 	w := vh.New("C38", "From Verif Require Import Base.Prelude Model.C01 Model.C38.", "C38.case", "C38.check")
-	w.Rule = "random histories (4-16 ops) over 2 series x 2 fields x timestamps 0..11: writes (1-6 points, sometimes a long run of one key), snapshots, CompactFull(ppb=3) of contiguous file runs + Replace, series range deletes (tombstone files); then file mtimes are set to ranks 1..5 and either Backup(since rank 0..6; 0 = full) + Restore into a fresh empty engine, or Export(lo<=hi in -1..12, or the full domain) + Import into a fresh empty engine; 1/4 of the actions are first attempted with cache snapshots disabled (Compactor.DisableSnapshots, mostly with points only in the cache) and retried after re-enabling if they fail; the target is a bare tsm1.Engine (Engine.Restore/Import; 1/3 with a series file + index of its own) or, 1/3 of the cases, a tsdb.Shard (Shard.Restore = restore + close + reopen, Shard.Import — what Store.RestoreShard/ImportShard call); every key is read back from both sides. 20 hand-picked cases first (since == mtime boundaries, tombstones, block-aligned / straddling / disjoint / min=lo&max=hi export ranges, a file overlapping the range with no block in it, an entirely deleted compaction). Non-trivial: >=2 writes, >=1 TSM file and >=1 readable point. Distinct: distinct Gallina terms."
+	w.Rule = "random histories (4-16 ops) over 2 series x 2 fields x timestamps 0..11: writes (1-6 points, sometimes a long run of one key), snapshots, CompactFull(ppb=3) of contiguous file runs + Replace, series range deletes (tombstone files); then file and tombstone mtimes are set (os.Chtimes, nanosecond ranks after a fixed base) around the chosen `since` = S+100ms / S / S+999ms — equal to since, 1ns before/after, earlier/later in the same wall-clock second, first/last nanosecond of that second, previous/next second, 5s away — and either Backup(since; 0 = full) + Restore into a fresh empty engine, or Export(lo<=hi in -1..12, or the full domain) + Import into a fresh empty engine; 1/4 of the actions are first attempted with cache snapshots disabled (Compactor.DisableSnapshots, mostly with points only in the cache) and retried after re-enabling if they fail; the target is a bare tsm1.Engine (Engine.Restore/Import; 1/3 with a series file + index of its own) or, 1/3 of the cases, a tsdb.Shard (Shard.Restore = restore + close + reopen, Shard.Import — what Store.RestoreShard/ImportShard call); every key is read back from both sides. 20 hand-picked cases first (since == mtime boundaries, tombstones, block-aligned / straddling / disjoint / min=lo&max=hi export ranges, a file overlapping the range with no block in it, an entirely deleted compaction). Non-trivial: >=2 writes, >=1 TSM file and >=1 readable point. Distinct: distinct Gallina terms."
 	openShared()
 	defer closeShared()
 	var rc jcase
